@@ -6,7 +6,7 @@
 From Coq Require Import List ZArith NArith String Bool.
 From SCC Require Import Base.Sexp Lang.FunSyn Lang.CoreSyn Lang.AxSyn Lang.AxSize Lang.FsSize Lang.CoreSize
      Model.Fun2Core Model.Focus Model.Shrink Model.SizeDefs Model.Linearize Model.Backend
-     Model.Uniquify Proof.Fun2CoreProof Proof.SizeLin Proof.SizeCodegen Proof.SizeShrink Proof.SizeFocus Proof.SizeGen Proof.SizeUniquify Model.SizeFun Proof.SizeFun2CoreFv Proof.SizeFun2Core Proof.SizeFun2CoreProg
+     Model.Uniquify Proof.Fun2CoreProof Proof.SizeLin Proof.SizeCodegen Proof.SizeShrink Proof.SizeFocus Proof.SizeGen Proof.SizeUniquify Model.SizeFun Proof.SizeFun2CoreFv Proof.SizeFun2Core Proof.SizeFun2CoreEntry Proof.SizeFun2CoreProg
      Model.ParMoves Model.LinCheck Model.X86 Model.SizeWf Proof.SizeParMoves Proof.SizeExchange Proof.SizeCodegenWf Proof.SizeX86 Proof.SizePipeline Proof.Fun2CoreExamples Proof.SizeFun2CoreRefute Proof.SizeA64 Proof.SizeRV Proof.SizeLinWidth.
 From SCC Require Model.A64 Model.RV.
 Import ListNotations.
